@@ -84,3 +84,25 @@ def rule_meta_ids(ctx, rid):
         if len(ds) > 1:
             r.fail("meta-id-collision|%s" % mid, "jsonschema/schemas", "drafts %s share the metaschema id %r: the later registration replaces the earlier" % (ds, mid))
     return r
+
+
+
+def rule_meta_properties(ctx, rid):
+    """A draft's metaschema constrains only names that draft defines: a `properties` entry for a keyword of another draft
+    (`$comment` in Draft 6, `const` in Draft 4) makes check_schema reject values of what is, in that draft, an unknown keyword."""
+    prog = ctx.prog
+    r = ctx.rule(rid, "each bundled metaschema constrains (properties / dependencies keys) only keywords of its own draft", floor=4)
+    for d in DRAFTS:
+        dr = prog.tables.drafts[d]
+        m = dr.meta if isinstance(dr.meta, dict) else {}
+        where = "jsonschema/schemas/%s.json" % dr.meta_name
+        allowed = set(spec.VOCAB[d]) | spec.META_EXTRA[d]
+        names = set(m.get("properties", {})) | set(m.get("dependencies", {}) if isinstance(m.get("dependencies"), dict) else ())
+        extra = sorted(names - allowed)
+        if extra:
+            for k in extra:
+                r.fail("%s|foreign-keyword|%s" % (d, k), where + "#/properties/%s" % k,
+                       "the %s metaschema constrains %r, which %s does not define: a schema using that name freely is rejected by check_schema" % (d, k, d))
+        else:
+            r.ok(where, "%d constrained names, all of %s" % (len(names), d))
+    return r
